@@ -205,6 +205,15 @@ def r14_5(ctx, prog):
             ctx.unrecognised('R14.5', tyname + '::next', 'missing', 'the Iterator impl of the traversal type %s was not found' % sty)
             continue
         f = fs[0]
+        # R14.9 the traversal is `next` and nothing else: std derives every other Iterator method (fold, for_each, last, nth, count,
+        # collect ..) from `next`, so the order R14.5 decides for `next` is the order of all of them - unless the impl overrides one
+        # (a hand-written `fold` that walks the saved stack levels in another order). `size_hint` is only a capacity hint.
+        others = sorted({g.name for g in prog.fns if g.name and g.kind != 'Closure' and path_endswith(g.j.get('impl_trait') or '', 'iter::Iterator')
+                         and g.j.get('impl_self_ty') == f.j.get('impl_self_ty') and g.name not in ('next', 'size_hint')})
+        if others:
+            ctx.unrecognised('R14.9', tyname + ':Iterator', 'overrides', 'the Iterator impl of the traversal type overrides %s besides `next`: consumers built on them do not go through the step R14.5 analysed, and their order is not decided' % others, span=f.span)
+        else:
+            ctx.ok('R14.9', tyname + ':Iterator', 'the Iterator impl of the traversal type defines `next` (and at most `size_hint`): every consumer is derived from it', span=f.span)
         try:
             it = Interp(prog, loop_bound=0, record_backedge=True)
             it.tyenv.append(probe._unify_ty(f.j['impl_self_ty'], concrete, f.j.get('generics') or []) or {})
